@@ -36,7 +36,7 @@ MAssoc(ks, x, M) == [k \in RangeOf(ks) |-> (x + (CHOOSE i \in DOMAIN ks : ks[i] 
 MOverride(f, g) == [k \in DOMAIN f \cup DOMAIN g |-> IF k \in DOMAIN g THEN g[k] ELSE f[k]]    \* g wins
 MapNorm(o, s, M) ==
   IF o.op \in {"mapping", "alist->mapping", "alist->mapping!", "adjoin", "set", "set!", "adjoin!"} THEN [o EXCEPT !.ks = DedupSeq(o.ks), !.x = o.x % M]
-  ELSE IF o.op = "unfold" THEN [o EXCEPT !.x = o.x % 7]
+  ELSE IF o.op = "unfold" THEN [o EXCEPT !.x = o.x % (M + 1)]
   ELSE IF o.op = "map" THEN [o EXCEPT !.x = IF o.x % 2 = 0 THEN 0 ELSE 2]
   ELSE IF o.op \in {"replace", "intern", "search", "search-update", "catenate", "map/monotone"} THEN [o EXCEPT !.x = o.x % M]
   ELSE IF o.op \in {"update", "update!", "update/default"} THEN [o EXCEPT !.x = o.x % NFun]
